@@ -252,6 +252,7 @@ def model_spa_class():
             # under test), the model's block has already been updated; swallow it here so that the *client's* handling of the same bytes
             # is what gets judged, not the harness.
             self.model_side_errors = 0
+            self.last_sender = None
             _orig_replace = self.structure.replace_status_block_segment
 
             def _safe_replace(offset, segment, _orig=_orig_replace):
@@ -278,6 +279,7 @@ def model_spa_class():
             return self._peer.engine.loop.clock.peek() if self._peer is not None else 0.0
 
         def _should_ignore(self, handler, sender, respect_rferr=True):
+            self.last_sender = sender            # reply parameters of the client that asked last (address + identifier pair)
             for v in self.silent_verbs:
                 if (isinstance(v, bytes) and getattr(handler, "raw", b"").startswith(v)) or type(handler).__name__ == v:
                     return True
